@@ -1,4 +1,5 @@
 import Ccp.Model.Tree
+import Ccp.Model.Edit
 /-!
 Model of the typed value extraction helpers (`groupdict=None` path):
 
@@ -14,8 +15,15 @@ are modelled; a `float` result is represented by the source text handed to
 `float()` (never by a floating point number) together with a recogniser of the
 texts `float()` accepts.
 
-Not modelled: the `groupdict=` path; the `search_safe` guard (the config is a
-fresh parse in every request); `OverflowError` of `float(int)` for huge ints.
+Outside the property's quantifier (the property speaks of "the requested capture
+group"), but modelled as the code is now so that the behaviour is on record:
+
+* the `groupdict=` path of `re_match_iter_typed` / `re_list_iter_typed`
+  (`get_regex_typed_dict`), including its two defects (section "groupdict");
+* the `search_safe` guard at the top of every `BaseCfgLine` helper, on the states of
+  `Ccp.Edit` (section "stale configs"); `CiscoConfParse.re_match_iter_typed` has no guard.
+
+Not modelled: `OverflowError` of `float(int)` for huge ints.
 -/
 namespace Ccp.Typed
 open Ccp.Py Ccp.Tree
@@ -29,6 +37,10 @@ deriving Repr, DecidableEq
 
 inductive Err
   | typeError | valueError | indexError
+  /-- the `search_safe` guard -/
+  | notImplemented
+  /-- `re_list_iter_typed_groupdict_dict` reads `retval` before assigning it -/
+  | nameError
   /-- an exception class raised by the external `IPv4Obj` parser -/
   | ext (cls : Str)
 deriving Repr, DecidableEq
@@ -226,6 +238,135 @@ def rootIterTyped (c : Ctx) (ty : Ty) (default : Arg) (untyped : Bool) : Except 
   match rootLoop c ty (List.range c.t.size) with
   | some r => r
   | none => typedDefault c ty default untyped
+
+/-! ### groupdict (outside the property's quantifier; the code as it is now) -/
+
+/-- `mapM` in `Except`, written out (the first failing conversion aborts) -/
+def mapE {α β ε : Type} (f : α → Except ε β) : List α → Except ε (List β)
+  | [] => .ok []
+  | a :: as =>
+    match f a with
+    | .error e => .error e
+    | .ok b =>
+      match mapE f as with
+      | .error e => .error e
+      | .ok bs => .ok (b :: bs)
+
+/-- the context of a `groupdict=` request: `keys` are the result types of `type_dict`
+(`None` = leave as is), in dict order; `gd text` is `None` when `re.search` fails, else one
+row per key: `noGroup` (the pattern has no group of that name), `unset`, `val s` -/
+structure DCtx where
+  gd : Str → Option (List GroupRes)
+  ip : Arg → Except Err Str
+  keys : List (Option Ty)
+  t : T
+
+def DCtx.at (c : DCtx) (j : Nat) : Option (List GroupRes) := c.gd (text c.t j)
+
+/-- one entry of `get_regex_typed_dict` for a match object:
+`v = groupdict().get(key, default); if _type is not None and v != default: v = _type(v)` -/
+def dictEntry (ip : Arg → Except Err Str) (default : Arg) (ty : Option Ty) : GroupRes → Except Err Val
+  | .val s =>
+    (match ty with
+     | none => .ok (.str s)
+     | some ty => if Arg.str s = default then .ok (.str s) else conv ip ty (.str s))
+  | .unset =>
+    (match ty with
+     | none => .ok .none
+     | some ty => if Arg.none = default then .ok .none else conv ip ty .none)
+  | .noGroup => .ok (Val.ofArg default)
+  | .noMatch => .ok (Val.ofArg default)
+
+/-- `get_regex_typed_dict(regex=mm, type_dict=groupdict, default=default)`: the values in key order -/
+def typedDict (c : DCtx) (default : Arg) : Option (List GroupRes) → Except Err (List Val)
+  | none => .ok (c.keys.map (fun _ => Val.ofArg default))
+  | some rows => mapE (fun kr => dictEntry c.ip default kr.1 kr.2) (c.keys.zip rows)
+
+/-- first line of the list that matches -/
+def firstSome (c : DCtx) : List Nat → Option (List GroupRes)
+  | [] => none
+  | j :: js => match c.at j with
+    | some rows => some rows
+    | none => firstSome c js
+
+/-- `obj.re_match_iter_typed(regex, groupdict={…}, default=…, recurse=…)` as written:
+with `recurse=False` the loop body returns unconditionally, i.e. at the first child -/
+def reMatchIterDict (c : DCtx) (i : Nat) (default : Arg) (recurse : Bool) : Except Err (List Val) :=
+  match c.at i with
+  | some rows => typedDict c default (some rows)
+  | none =>
+    if recurse = false then
+      match children c.t i with
+      | k :: _ => typedDict c default (c.at k)
+      | [] => typedDict c default none
+    else typedDict c default (firstSome c (allChildren c.t i))
+
+/-- the first `get_regex_typed_dict` call of `re_list_iter_typed_groupdict_dict` (its default is
+`None`): the line itself when it matches, else the first child (any) / first matching descendant -/
+def listDictFirst (c : DCtx) (i : Nat) (recurse : Bool) : Option (Option (List GroupRes)) :=
+  match c.at i with
+  | some rows => some (some rows)
+  | none =>
+    if recurse = false then
+      match children c.t i with
+      | k :: _ => some (c.at k)
+      | [] => none
+    else (firstSome c (allChildren c.t i)).map some
+
+/-- `obj.re_list_iter_typed(regex, groupdict={…}, recurse=…)` as written: `retval` is never
+initialised, so the first `retval.append` / the final `return retval` raises `NameError` —
+unless the conversion before the first `append` raises first -/
+def reListIterDict (c : DCtx) (i : Nat) (recurse : Bool) : Except Err (List (List Val)) :=
+  match listDictFirst c i recurse with
+  | none => .error .nameError
+  | some mm =>
+    match typedDict c .none mm with
+    | .error e => .error e
+    | .ok _ => .error .nameError
+
+/-! ### stale configs (outside the property's quantifier) -/
+
+/-- `if self.confobj is not None and self.confobj.search_safe is False: raise NotImplementedError`,
+the first statement of `re_match`, `re_match_typed`, `re_match_iter_typed`, `re_list_iter_typed` -/
+def guarded {α : Type} (stale : Bool) (r : Except Err α) : Except Err α :=
+  if stale then .error .notImplemented else r
+
+/-- an object helper called on the committed object `h` of an edit state that is committed or
+stale (every state reachable by `ConfigList.insert` and `commit`): guarded by `S.stale`, answered
+from the links of the last commit -/
+def onState (s : Edit.S) (g : Str → GroupRes) (ip : Arg → Except Err Str) : Ctx :=
+  { g := g, ip := ip, t := s.tree }
+
+def stMatch (s : Edit.S) (g : Str → GroupRes) (ip : Arg → Except Err Str) (h : Nat) (d : Arg) : Except Err Val :=
+  guarded s.stale (reMatch (onState s g ip) h d)
+def stMatchTyped (s : Edit.S) (g : Str → GroupRes) (ip : Arg → Except Err Str) (h : Nat) (ty : Ty) (d : Arg) (u : Bool) : Except Err Val :=
+  guarded s.stale (reMatchTyped (onState s g ip) h ty d u)
+def stIterTyped (s : Edit.S) (g : Str → GroupRes) (ip : Arg → Except Err Str) (h : Nat) (ty : Ty) (d : Arg) (u r : Bool) : Except Err Val :=
+  guarded s.stale (reMatchIterTyped (onState s g ip) h ty d u r)
+def stListTyped (s : Edit.S) (g : Str → GroupRes) (ip : Arg → Except Err Str) (h : Nat) (ty : Ty) (r : Bool) : Except Err (List Val) :=
+  guarded s.stale (reListIterTyped (onState s g ip) h ty r)
+
+/-- `cobj.parent is cobj` for an element of the current list: an object of the last commit keeps
+its committed parent, an object created since is its own parent -/
+def itemIsRoot (t : T) (it : Edit.Item) : Bool :=
+  match it.id with
+  | some h => parentOf t h == h
+  | none => true
+
+/-- the loop of `CiscoConfParse.re_match_iter_typed` over the *current* list (there is no
+`search_safe` guard in this method) -/
+def rootLoopItems (g : Str → GroupRes) (ip : Arg → Except Err Str) (t : T) (ty : Ty) :
+    List Edit.Item → Option (Except Err Val)
+  | [] => none
+  | it :: r =>
+    if itemIsRoot t it && matched (g it.text) then some (convGroup ip ty (g it.text))
+    else rootLoopItems g ip t ty r
+
+def stRootIterTyped (s : Edit.S) (g : Str → GroupRes) (ip : Arg → Except Err Str) (ty : Ty) (d : Arg)
+    (u : Bool) : Except Err Val :=
+  match rootLoopItems g ip s.tree ty s.items with
+  | some r => r
+  | none => typedDefault (onState s g ip) ty d u
 
 /-! ### the documented orders (specification side) -/
 
